@@ -274,6 +274,9 @@ sys.exit(0 if np.isfinite(F).all() else 1)
 
 def main(tier, seed):
     rep = Report(PID, tier, seed, "proof")
+    from engine import crosscheck
+
+    crosscheck.attach(rep, seed)
     rep.assumed_contract("core field functions are total (finite) on the argument region their wrapper sends them — ASSUMED; termination and convergence of the "
                          "cel / el3 iteration loops and finiteness through the elliptic/transcendental cores are NOT proved (bounded stand-in only)")
     rep.assume("reals for doubles: overflow / underflow / cancellation to inf or nan in float64 is outside the proof part (bounded stand-in only)")
